@@ -220,6 +220,8 @@ class Parser:
             while self.isop("::") and self.peek(1)[0] == "id":
                 self.eat()
                 name += "::" + self.eat()
+            if name in ("norm_1", "norm_inf") and name not in USINGS:
+                oog("%s without its using-declaration" % name)
             if name.split("::")[-1] in ("inf", "NaN") and self.isop("<"):
                 self.eat()
                 self.eat("id")
@@ -365,7 +367,18 @@ class Parser:
             e = None if self.isop(";") else self.expr()
             self.eat("op", ";")
             return ("return", e)
-        if k == "id" and v in ("using", "static_assert"):
+        if k == "id" and v == "using":
+            self.eat()
+            name = self.eat("id")
+            while self.isop("::") and self.peek(1)[0] == "id":
+                self.eat()
+                name += "::" + self.eat()
+            if name not in ("vec_util::norm_1", "vec_util::norm_inf"):
+                oog("using-declaration of %s" % name)
+            self.eat("op", ";")
+            USINGS.add(name.split("::")[-1])
+            return None
+        if k == "id" and v == "static_assert":
             self.skip_to_semicolon()
             return None
         if self.is_decl():
@@ -392,7 +405,11 @@ class Parser:
         return ("expr", e)
 
 
+USINGS = set()          # the using-declarations seen so far in the function body being parsed (parse_stmts resets it)
+
+
 def parse_stmts(text):
+    USINGS.clear()
     return Parser(tokenize(text)).stmts_all()
 
 
@@ -877,12 +894,10 @@ class Ev:
             raise Reduction("reduction %s in a coefficient-wise expression" % base)
         if base in ("real_t", "double") and len(args) == 1:
             return ("S", self.S(self.ev(args[0], env)))
-        if base == "Constant" and len(args) == 2:
-            return ("S", self.S(self.ev(args[1], env)))
-        if base == "Zero":
-            return ("S", leaf("n0"))
-        if base == "Ones":
-            return ("S", leaf("n1"))
+        if base in ("Constant", "Zero", "Ones") and len(args) == (2 if base == "Constant" else 1):
+            if self.ev(args[0], env)[0] != "N":              # the size argument is not modelled but must be a known size
+                oog("size argument of %s" % name)
+            return ("S", self.S(self.ev(args[1], env)) if base == "Constant" else leaf("n0" if base == "Zero" else "n1"))
         if name in ("std::max", "std::min", "std::fmax", "std::fmin") and len(args) == 2:
             x, y = self.S(self.ev(args[0], env)), self.S(self.ev(args[1], env))
             f = {"std::max": l_cmax, "std::min": l_cmin, "std::fmax": l_fn("nfmax"), "std::fmin": l_fn("nfmin")}[name]
@@ -1351,6 +1366,8 @@ class Translator:
             if s[0] == "block":
                 return chain(s[1] + stmts[1:])
             if s[0] == "return" and s[1] is not None:
+                if len(stmts) > 1:
+                    oog("statement after a return in eval_prox_grad_step (unreachable)")
                 return ret_call(s[1])
             if s[0] == "if" and not s[4]:
                 c = emit(self.ev.B(self.ev.ev(s[1], env)))
@@ -1409,6 +1426,7 @@ class Translator:
 
         def elem_env(used):
             env = {"M": ("S", leaf("M"))}
+            env.update((n, v) for n, v in nenv.items() if v[0] == "N")         # sizes (arguments of vec::Constant / Zero)
             for n, (b, kind, off, ln) in views.items():
                 env[n] = ("S", leaf("y")) if kind == "plain" else ("S", bound_tree(b, -1 if kind == "lower" else +1))
             for n, a in lazy.items():
@@ -1573,7 +1591,12 @@ class Translator:
         # box members indexed with (i): handled by the evaluator through call on an S value
         is_zero = None
         structure = None
-        for s in parse_stmts(body):
+        sts = parse_stmts(body)
+        # the counter: declared first (`index_t nJ = 0;`, the lambdas capture it) and returned last (`return nJ;`), nothing after it
+        if len(sts) < 2 or sts[0][:3] != ("decl", "nJ", ("num", "0")) or sts[-1] != ("return", ("id", "nJ")) or \
+                any(x[0] == "return" or (x[0] == "decl" and x[1] == "nJ") for x in sts[1:-1]):
+            oog("eval_inactive_indices_res_lna does not start with `index_t nJ = 0;` and end with its only `return nJ;`")
+        for s in sts:
             if s[0] == "decl" and s[2] is not None:
                 if s[1] == "nJ":
                     if s[2] != ("num", "0"):
@@ -1613,6 +1636,8 @@ class Translator:
         params, body = find_function(src, "prox")
         body = flat(body)
         ones = "if constexpr (std::is_same_v<weight_t, vec>) if (λ.size() == 0) λ = weight_t::Ones(n);"
+        if body.count(ones) != 1 or flat("} else { " + ones) not in body:
+            oog("%s::prox: the all-ones default `%s` is not the first statement of the vector-weight branch" % (struct, ones))
         body = body.replace(ones, " ")          # recognised and NOT modelled: an empty weight vector means all-ones
         st = parse_stmts(body)
         pre, a, b = [], None, None
@@ -1644,28 +1669,48 @@ class Translator:
         u.notes.append("`if (λ.size() == 0) λ = Ones(n)` (vector weight) is recognised and not modelled")
         return u
 
+    # L1NormComplex::prox, consume-everything: besides the translated statements (the soft_thres lambda and `out = in.unaryExpr(..)` of the
+    # scalar-weight branch) the body consists of exactly these statements, in this order (asserts apart): known, not modelled
+    L1C_SCALAR = ["const length_t n = in.size();", "if (λ == 0) { out = in; return 0; }", "<lambda>", "<out>",
+                  "return λ * norm_1(out.reshaped());"]
+    L1C_VECTOR = ["const length_t n = in.size();",
+                  "auto soft_thres = [γ](cplx_t x, real_t λ) { real_t γλ = γ * λ; auto mag2 = x.real() * x.real() + x.imag() * x.imag(); "
+                  "return mag2 <= γλ * γλ ? 0 : x * (1 - γλ / std::sqrt(mag2)); };",
+                  "out = in.binaryExpr(λ, soft_thres);", "return norm_1(out.cwiseProduct(λ).reshaped());"]
+
     def unit_l1c(self):
         u = Unit("l1c_prox", "l1-norm.hpp: L1NormComplex::prox (scalar weight): the soft_thres lambda")
         params, sa, sb = self.l1_branches("L1NormComplex")
+        if [n for n, _ in params] != ["in", "out", "γ"]:
+            oog("parameters of L1NormComplex::prox")
         ev = self.ev
         env = {"λ": ("S", leaf("λ")), "γ": ("S", leaf("γ")), "in": ("C", leaf("a"), leaf("b"))}
         out = None
-        for s in sa:
-            if s[0] == "decl" and s[2] is not None and s[2][0] == "lambda":
+        is_assert = lambda s: s[0] == "expr" and s[1][0] == "call" and s[1][1] == ("id", "assert")
+
+        def known(text):
+            USINGS.update(("norm_1", "norm_inf"))
+            return Parser(tokenize(text)).stmts_all()[0]
+        sa = [s for s in sa if not is_assert(s)]
+        sb = [s for s in sb if not is_assert(s)]
+        if len(sa) != len(self.L1C_SCALAR) or len(sb) != len(self.L1C_VECTOR):
+            oog("number of statements of L1NormComplex::prox")
+        for s, k in zip(sb, self.L1C_VECTOR):
+            if s != known(k):
+                oog("vector-weight branch of L1NormComplex::prox: statement %s differs from the known `%s`" % (s[0], k[:40]))
+        for s, k in zip(sa, self.L1C_SCALAR):
+            if k == "<lambda>":
+                if not (s[0] == "decl" and s[2] is not None and s[2][0] == "lambda"):
+                    oog("soft_thres lambda expected in L1NormComplex::prox")
                 env[s[1]] = ev.ev(s[2], env)
-            elif s[0] == "decl" and s[2] is not None:
-                try:
-                    env[s[1]] = ev.ev(s[2], env)
-                except OutOfGrammar:
-                    pass
-            elif s[0] == "assign" and s[1] == ("id", "out") and s[2] == "=":
+            elif k == "<out>":
+                if not (s[0] == "assign" and s[1] == ("id", "out") and s[2] == "="):
+                    oog("`out = in.unaryExpr(soft_thres)` expected in L1NormComplex::prox")
                 v = ev.ev(s[3], env)
                 if v[0] == "C":
                     out = v
-            elif s[0] in ("expr", "if", "return"):
-                continue
-            else:
-                oog("statement %s in L1NormComplex::prox" % s[0])
+            elif s != known(k):
+                oog("scalar-weight branch of L1NormComplex::prox: statement %s differs from the known `%s`" % (s[0], k[:40]))
         if out is None:
             oog("out = in.unaryExpr(soft_thres) not found")
         u.add("g_l1c_prox1", "(λ γ : T) (z : T * T) : T * T",
@@ -1697,7 +1742,10 @@ class Translator:
         for which, body in fns:
             env = {"self": box, "in": ("S", leaf("v")), "fwd_step": ("S", leaf("d")), "γ_fwd": ("S", leaf("γf"))}
             got = {}
-            for s in parse_stmts(body):
+            sts = parse_stmts(body)
+            if not sts or sts[-1] != ("return", ("num", "0")) or any(x[0] == "return" for x in sts[:-1]):
+                oog("Box %s does not end with its only `return 0;`" % which)
+            for s in sts:
                 if s[0] == "expr" and s[1][0] == "call" and s[1][1] == ("id", "assert"):
                     continue
                 if s[0] == "assign" and s[2] == "=" and s[1][0] == "id":
@@ -1801,7 +1849,7 @@ def generate(repo):
 
 def write(repo=None, outfile=None):
     repo = repo or os.environ.get("VERIF_REPO", "/repo")
-    outfile = outfile or os.path.join(VERIF, "coq", "gen", "ProxGen.v")
+    outfile = outfile or os.path.join(os.environ.get("VERIF_GEN_OUT") or os.path.join(VERIF, "coq", "gen"), "ProxGen.v")
     blocks, status = generate(repo)
     bad = {k: v for k, v in status.items() if v != "ok"}
     st = "ok" if not bad else "translator-out-of-grammar"
